@@ -117,9 +117,8 @@ let eval = function
            let a0 = Stdlib.List.hd grp in
            let d = match from_assertion o g a0 n with Some d -> show_div d | None -> "panic" in
            let cols = lmap (fun a ->
-               let dummy = Stdlib.List.init (int_of_z a.a_nvals) (fun _ -> BinNums.Z0) in
-               let c = bc_new o a dummy (o.FieldOps.finv g) in
-               Stdlib.Printf.sprintf "%s/%s/%x" (h c.bc_col) (h c.bc_off_steps) (Stdlib.List.length c.bc_poly)) grp in
+               let off = bc_poly_offset o a a.a_nvals (o.FieldOps.finv g) in
+               Stdlib.Printf.sprintf "%s/%s/%s" (h a.a_col) (h (fst off)) (h a.a_nvals)) grp in
            Stdlib.Printf.sprintf "[%s cols=%s]" d (cat "," cols)) (groups sorted)))
   | [ "evd"; n; base; cycles ] -> h (eval_degree (z n) (z base) (lmap z (split_on ',' cycles)))
   | [ "ex"; n; k; ce; degs ] ->
